@@ -12,7 +12,7 @@ RULE = ("one op = one call of one combinator on values over D={0,1,2} with conti
         "both sides print the result and the ordered log of continuation calls with their arguments. Exhaustive over all "
         "optionals/eithers/variants, all value categories (L non-const lvalue, C const lvalue, R rvalue), all unary function "
         "tables (27 D->D, 64 D->optional D, 216 D->either, 8 D->bool), all containers up to length 4; all 3^9 binary tables via "
-        "`all9` digests (thorough: every input, quick: a rotating subset); 27- and 81-entry tables sampled. "
+        "`all9` digests (every input and category, both tiers); 27- and 81-entry tables sampled. "
         "weight(all9 line)=19683. Non-trivial = a continuation was called or the result is not the empty optional.")
 ASSUMPTIONS = [
     "fcppt::optional::object<T> = Option T; either::object<F,S> = two-constructor sum; variant::object<Ts...> = (index, value of that type); the valueless std::variant state is not reachable through the modelled operations",
@@ -131,14 +131,12 @@ def batches(rng, tier):
                 note="sequence (rvalue only: the template rejects lvalues), first_success, loop (queue of next() results; a queue without "
                      "failure ends in the uncaught exception of next): all vectors of eithers up to length 4 (1555)")
     if thorough:
-        ops = [f"e.assoc {c} {e} {f} {g}" for c, e, f, g in prod(["R"], EITH, T_DE, T_DE)]
-        r = rng.fork("e-assoc")
-        ops += [f"e.assoc {r.choice(['L', 'C'])} {r.choice(EITH)} {r.choice(T_DE)} {r.choice(T_DE)}" for _ in range(20000)]
-        yield Batch("either-laws", ops, note="bind associativity: all 216x216 pairs for rvalues, 20000 sampled for lvalues")
+        ops = [f"e.assoc {c} {e} {f} {g}" for c, e, f, g in prod(CATS, EITH, T_DE, T_DE)]
+        yield Batch("either-laws", ops, exhaustive=True, note="bind associativity (both sides): all eithers x all 216x216 pairs of functions x all value categories")
     else:
         r = rng.fork("e-assoc")
-        ops = [f"e.assoc {r.choice(CATS)} {r.choice(EITH)} {r.choice(T_DE)} {r.choice(T_DE)}" for _ in range(12000)]
-        yield Batch("either-laws", ops, note="bind associativity, 12000 sampled (category, either, f, g)")
+        ops = [f"e.assoc {r.choice(CATS)} {r.choice(EITH)} {r.choice(T_DE)} {r.choice(T_DE)}" for _ in range(40000)]
+        yield Batch("either-laws", ops, note="bind associativity, 40000 sampled (category, either, f, g); exhaustive in the thorough tier")
 
     # ------------------------------------------------------------------ variant
     ops = []
@@ -146,25 +144,28 @@ def batches(rng, tier):
     ops += [f"v.cmp {a} {b}" for a, b in prod(VAR, VAR)]
     ops += [f"v.holds {j} {v}" for j, v in prod(D, VAR)]
     ops += [f"v.index {v}" for v in VAR]
-    # match: the three functions; exhaustive over the function applied, the other two range over a covering set
-    cover = ["000", "111", "222", "012", "120", "201"]
+    # match: all 27^3 triples of functions (thorough); quick: every function for the held alternative, the other two sampled
     rm = rng.fork("vmatch")
     for c, v in prod(CATS, VAR):
-        for f in T_DD:
-            for g, h in prod(cover, cover) if thorough else [(rm.choice(cover), rm.choice(cover)) for _ in range(2)]:
-                fs = {"A": (f, g, h), "B": (g, f, h), "C": (g, h, f)}[v[0]]
-                ops.append(f"v.match {c} {v} {fs[0]} {fs[1]} {fs[2]}")
+        if thorough:
+            ops += [f"v.match {c} {v} {fa} {fb} {fc}" for fa, fb, fc in prod(T_DD, T_DD, T_DD)]
+        else:
+            for f in T_DD:
+                for _ in range(4):
+                    g, h = rm.choice(T_DD), rm.choice(T_DD)
+                    fs = {"A": (f, g, h), "B": (g, f, h), "C": (g, h, f)}[v[0]]
+                    ops.append(f"v.match {c} {v} {fs[0]} {fs[1]} {fs[2]}")
     yield Batch("variant-basic", ops, exhaustive=thorough,
-                note="to_optional holds_type type_index == != < on all (pairs of) variants; match: all 27 functions for the held alternative x "
-                     + ("36" if thorough else "2 random") + " pairs for the other two")
+                note="to_optional holds_type type_index == != < on all (pairs of) variants and categories; match: "
+                     + ("all 27^3 triples of functions" if thorough else "all 27 functions for the held alternative x 4 random pairs for the other two"))
     r = rng.fork("variant")
     ops = []
     special = ["t" * 27, "f" * 27]
     for a, b in prod(VAR, VAR):
-        for tb in special + [rtable(r, "tf", 27) for _ in range(12 if thorough else 3)]:
+        for tb in special + [rtable(r, "tf", 27) for _ in range(20 if thorough else 4)]:
             ops.append(f"v.compare {a} {b} {tb}")
     for c, a, b in prod(CATS, VAR, VAR):
-        for _ in range(6 if thorough else 1):
+        for _ in range(12 if thorough else 2):
             ops.append(f"v.apply2 {c} {a} {b} {rtable(r, D, 81)}")
     yield Batch("variant-compare-apply2", ops, note="compare with sampled predicates (27-entry tables), binary apply with sampled 81-entry tables, all pairs of variants")
 
@@ -176,15 +177,13 @@ def batches(rng, tier):
     all9 += [f"all9 o.mm2 {c} {a} {b} {d} *" for c, a, b, d in prod(CATS, OPT, OPT, D)]
     all9 += [f"all9 e.apply2 {c} {a} {b} *" for c, a, b in prod(CATS, EITH, EITH)]
     all9 += [f"all9 v.apply1 {c} {v} *" for c, v in prod(CATS, VAR)]
-    if not thorough:
-        r.shuffle(all9)
-        all9 = all9[:24]
-    yield Batch("binary-tables-all9", all9, exhaustive=thorough,
-                note="apply/2, combine, maybe_multi/2, either apply/2, variant apply/1 over ALL 19683 tables D x D -> D per input; "
-                     + ("every input and category" if thorough else "24 randomly chosen (op, category, input) lines; the rest in the thorough tier"))
+    r.shuffle(all9)
+    yield Batch("binary-tables-all9", all9, exhaustive=True,
+                note="apply/2, combine, maybe_multi/2, either apply/2, variant apply/1 over ALL 19683 tables D x D -> D, every input "
+                     "and value category (375 digest lines)")
     # binary ops, every input, sampled tables (so that quick sees every input of these too)
     ops = []
-    k = 8 if thorough else 3
+    k = 10 if thorough else 3
     for c, a, b in prod(CATS, OPT, OPT):
         for _ in range(k):
             ops.append(f"o.apply2 {c} {a} {b} {rtable(r, D, 9)}")
@@ -197,7 +196,7 @@ def batches(rng, tier):
         for _ in range(k):
             ops.append(f"v.apply1 {c} {v} {rtable(r, D, 9)}")
     # ternary: every input triple, sampled 27-entry tables
-    k = 6 if thorough else 1
+    k = 12 if thorough else 2
     for c, a, b, d in prod(CATS, OPT, OPT, OPT):
         for _ in range(k):
             ops.append(f"o.apply3 {c} {a} {b} {d} {rtable(r, D, 27)}")
